@@ -560,6 +560,101 @@ func c14R3Updater(c *Ctx, u *c14Upd, getGen *ssa.Function) {
 	}
 	ra := c14ErrFlowUp(V, apply, ErrFlowOpts{Tolerated: tol}, 0)
 	c.Check(R, upn+"|apply-error-surfaces", apply.Pos(), ra.OK, ifelse(ra.OK, ra.How, ra.Detail))
+	// "nothing to update" is a verdict on the whole merged batch: only the apply step may produce the sentinel
+	if sentinel != "" {
+		applyFns := c14FnSet(c14NewView(StaticCallee(apply), 3, c14RemoteExpandAll))
+		okProd, who := true, ""
+		for _, f := range c.P.FuncsOfPkg(c14PkgRemote) {
+			if applyFns[f] {
+				continue
+			}
+			AllInstrs(f, func(in ssa.Instruction) {
+				ld, isLd := in.(*ssa.UnOp)
+				if !isLd || ld.Op != token.MUL {
+					return
+				}
+				g, isG := ld.X.(*ssa.Global)
+				if !isG || short(g.Pkg.Pkg.Path()+"."+g.Name()) != sentinel {
+					return
+				}
+				for a := range Aliases(ld) {
+					if a.Referrers() == nil {
+						continue
+					}
+					for _, r := range *a.Referrers() {
+						switch x := r.(type) {
+						case *ssa.Return, *ssa.Store, *ssa.MakeClosure, *ssa.Send:
+							okProd, who = false, FnName(f)
+						case *ssa.Call:
+							if CalleeName(x) != "errors.Is" {
+								okProd, who = false, FnName(f)
+							}
+						}
+					}
+				}
+			})
+		}
+		c.Check(R, upn+"|no-update-verdict-only-from-apply", apply.Pos(), okProd,
+			ifelse(okProd, sentinel+" is produced only by the apply step (evaluated over the whole merged batch); elsewhere it is only compared",
+				who+" produces "+sentinel+" itself: the merge leader declares \"nothing to update\" without evaluating the whole batch, so changes of other callers merged into this batch are dropped while their calls report success"))
+	}
+	// the leader's callbacks decide from the merged batch, never from the leader's own request
+	if ls := V.LeavesShallow(args[1]); len(ls) == 1 {
+		own, isP := ls[0].(*ssa.Parameter)
+		if !isP {
+			own = c14ParamOf(ls[0], U)
+			isP = own != nil
+		}
+		if isP && own.Parent() == U {
+			carriers := map[ssa.Value]bool{own: true}
+			for _, f := range V.Funcs() {
+				AllInstrs(f, func(in ssa.Instruction) {
+					if st, isSt := in.(*ssa.Store); isSt {
+						for _, l := range V.LeavesShallow(st.Val) {
+							if l == ssa.Value(own) {
+								carriers[st.Addr] = true
+							}
+						}
+					}
+				})
+			}
+			okOwn, where := true, ""
+			for _, f := range V.Funcs() {
+				if !u.PFns[f] && !u.UpFns[f] {
+					continue
+				}
+				AllInstrs(f, func(in ssa.Instruction) {
+					for _, op := range in.Operands(nil) {
+						if *op == nil {
+							continue
+						}
+						v := *op
+						hit := carriers[v]
+						if fv, isFV := v.(*ssa.FreeVar); isFV {
+							if cell := c14FreeVarAlloc(fv); cell != nil && carriers[cell] {
+								hit = true
+							}
+						}
+						if fa, isFA := v.(*ssa.FieldAddr); isFA && !hit {
+							if obj := V.objOf(fa.X); obj != nil {
+								for _, st := range V.FieldStoresOf(obj, fa.Field) {
+									if carriers[st.Addr] {
+										hit = true
+									}
+								}
+							}
+						}
+						if hit {
+							okOwn, where = false, FnName(f)+" at "+c.P.Pos(in.Pos())
+						}
+					}
+				})
+			}
+			c.Check(R, un+"|leader-decides-from-batch-only", u.DoCall.Pos(), okOwn,
+				ifelse(okOwn, "prepare/update never read the leader's own change (only the merged batch handed over by Merge.Do)",
+					"the merge leader's callback reads the leader's own request ("+where+") instead of the merged batch: a decision taken from it (skip, early success) is applied to every change merged behind it, and those callers are told their update succeeded"))
+		}
+	}
 	var tolE []Edge
 	if applyErr != nil {
 		tolE = toleratedEdges(af, Aliases(applyErr), tol)
